@@ -1,13 +1,13 @@
 package fr
 
 import (
-	"time"
 	"crypto/sha256"
 	"encoding/hex"
 	"fmt"
-	"sort"
 	"runtime/debug"
+	"sort"
 	"strings"
+	"time"
 
 	errorsmod "cosmossdk.io/errors"
 	sdkmath "cosmossdk.io/math"
@@ -15,8 +15,8 @@ import (
 	sdk "github.com/cosmos/cosmos-sdk/types"
 	"github.com/cosmos/cosmos-sdk/types/query"
 
-	fundraising "github.com/tendermint/fundraising/x/fundraising/module"
 	frkeeper "github.com/tendermint/fundraising/x/fundraising/keeper"
+	fundraising "github.com/tendermint/fundraising/x/fundraising/module"
 	frtypes "github.com/tendermint/fundraising/x/fundraising/types"
 )
 
@@ -47,19 +47,19 @@ type Extra struct {
 
 // Step is one line of the recorded trace.
 type Step struct {
-	Trace string          `json:"trace"`
-	I     int             `json:"i"`
-	Act   map[string]any  `json:"act"`
-	Res   Res             `json:"res"`
-	St    State           `json:"st"`
-	Xfers []Xfer          `json:"xfers"`
-	Hooks []HookCall      `json:"hooks"`
-	Extra Extra           `json:"extra"`
-	Ev    []EventJ        `json:"ev"`
-	Evm   []map[string]any `json:"evm"` // module events in model terms
-	Rep   int             `json:"rep"` // replica number (C14), 1-based
-	Len   int             `json:"len"` // lines per replica
-	Judge bool            `json:"judge"` // false: the monitor only threads its ghost state through this step
+	Trace string           `json:"trace"`
+	I     int              `json:"i"`
+	Act   map[string]any   `json:"act"`
+	Res   Res              `json:"res"`
+	St    State            `json:"st"`
+	Xfers []Xfer           `json:"xfers"`
+	Hooks []HookCall       `json:"hooks"`
+	Extra Extra            `json:"extra"`
+	Ev    []EventJ         `json:"ev"`
+	Evm   []map[string]any `json:"evm"`   // module events in model terms
+	Rep   int              `json:"rep"`   // replica number (C14), 1-based
+	Len   int              `json:"len"`   // lines per replica
+	Judge bool             `json:"judge"` // false: the monitor only threads its ghost state through this step
 }
 
 type PageJ struct {
